@@ -102,6 +102,11 @@ package nflog
 //@   at call broadcast assert [re-gossip-only-a-first-merge] ret("state).merge") && arg0 == b && called("OversizedMessage") && !ret("OversizedMessage")
 //@   ensures [every-first-merge-of-a-small-message-is-re-gossiped] result == nil ==> count("dynamic:field:broadcast") == (OversizedMessage(b) ? 0 : counttrue0("state).merge"))
 //@   loop 1 invariant counttrue0("state).merge") >= 0 && count("dynamic:field:broadcast") == (OversizedMessage(b) ? 0 : counttrue0("state).merge"))
+//@   ensures [every-received-entry-is-offered] result == nil ==> count("state).merge") == len(ret("decodeState"))
+//@   ensures [holds-the-newest-received] result == nil ==> (forall k string :: k in ret("decodeState") && tsT(ret("decodeState")[k].ExpiresAt) >= ret("Log).now")
+//@             ==> k in l.st && tsT(l.st[k].Entry.Timestamp) >= tsT(ret("decodeState")[k].Entry.Timestamp))
+//@   loop 1 invariant st == ret("decodeState") && count("state).merge") == len(visited) && (forall k string :: k in visited ==> k in st) && dom(st) == rangedom
+//@   loop 1 invariant forall k string :: k in visited && tsT(st[k].ExpiresAt) >= ret("Log).now") ==> k in l.st && tsT(l.st[k].Entry.Timestamp) >= tsT(st[k].Entry.Timestamp)
 //@   loop 1 invariant l.st == old(l.st) && wfState(l.st) && l.st != st
 //@   loop 1 invariant forall k string :: old(k in l.st) ==> k in l.st && tsT(l.st[k].Entry.Timestamp) >= old(tsT(l.st[k].Entry.Timestamp))
 //@   loop 1 invariant forall k string :: old(k in l.st) && l.st[k] != old(l.st[k]) ==> tsT(l.st[k].Entry.Timestamp) > old(tsT(l.st[k].Entry.Timestamp))
